@@ -95,6 +95,32 @@ func (ic *incorp) deps1(v ssa.Value) depSet {
 	case *ssa.Alloc:
 		// contents of a local: everything stored into it
 		storedInto(x, func(sv ssa.Value) bool { out.add(ic.deps(sv)); return false })
+		// a local captured by function literals: everything they store into it
+		// (`participants.ForEach(func(id) { key = append(key, id.ToBytes()...) })`)
+		if refs := x.Referrers(); refs != nil && ic.depth < 4 {
+			for _, r := range *refs {
+				mc, ok := r.(*ssa.MakeClosure)
+				if !ok {
+					continue
+				}
+				cl, _ := mc.Fn.(*ssa.Function)
+				if cl == nil {
+					continue
+				}
+				for i, b := range mc.Bindings {
+					if b != ssa.Value(x) || i >= len(cl.FreeVars) {
+						continue
+					}
+					sub := ic.closureCtx(mc, cl)
+					fv := cl.FreeVars[i]
+					eachInstr(cl, func(in ssa.Instruction) {
+						if st, ok := in.(*ssa.Store); ok && st.Addr == ssa.Value(fv) {
+							out.add(sub.deps(st.Val))
+						}
+					})
+				}
+			}
+		}
 		// a builder / hasher local: everything written to it
 		out.add(ic.writtenTo(x))
 		// a local byte array filled through a slice of it: binary.<order>.PutUintNN(a[:], v), copy(a[:], v)
